@@ -14,7 +14,15 @@ def tasks(tier):
     T = []
     cfgs = [{'DIM': 2, 'ORDER': None}] if tier == 'quick' else [{'DIM': 1, 'ORDER': None}, {'DIM': 2, 'ORDER': None}, {'DIM': 3, 'ORDER': 6}]
     for cfg in cfgs:
-        T.append(Task('PPolyND', 'generateTimeSequence', 3, cfg, options=OPT))
+        base = Task('a', 'b', cfg=cfg).label
+        T.append(Task('PPolyND', 'generateTimeSequence', 3, cfg, options=OPT, label=base + ',interval'))
+        T.append(Task('PPolyND', 'generateTimeSequence', 1, cfg, options=OPT, label=base + ',whole'))
+        for ncf in (1, 3):
+            T.append(Task('PPolyND', 'zero', 2, cfg, pins={'p_num_coefficients': ncf}))
+        T.append(Task('PPolyND', 'constant', 2, cfg))
+        for nc, k in ((3, 1), (4, 0)) if tier == 'quick' else ((1, 0), (3, 1), (4, 0), (4, 3), (6, 1)):
+            pk = {'num_coeffs_': nc, 'p_derivative_order': k}
+            T.append(Task('PPolyND', 'evaluate', cfg=cfg, pins=pk, pred=sig_pred(('vector', 'int')), label=Task('a', 'b', cfg=cfg, pins=pk).label + ',batch'))
     return T
 
 
